@@ -9,6 +9,8 @@ set_option linter.unusedVariables false
 namespace Ft
 namespace Codec
 
+variable (hu : Nat → Bool) (dflt : Int)
+
 /-! ### the per-rank arrays decode, by layout alone, to the content -/
 
 /-- For every descriptor, every tensor inside its extents, with or without an imposed shape:
@@ -17,19 +19,19 @@ namespace Codec
 theorem decode_encode_eff (d : Nat) (fs : List Fmt) (tsh : List Nat) (ish : Option (List Nat))
     (t : List (Int × Tree Int Int d))
     (hfs : fs.length = d + 1) (hwf : wfB (κ := Int) (ν := Int) (d + 1) t = true)
-    (hin : inEff (d + 1) fs tsh ish t = true) :
-    decodesTo d fs (effShape fs tsh ish) (encode d fs tsh ish t).root (encode d fs tsh ish t).cs
-      (encode d fs tsh ish t).ps (content (κ := Int) (ν := Int) (0 : Int) (d + 1) t) = true := by
-  obtain ⟨r, hr⟩ : ∃ r, r = encF d fs tsh ish 0 (List.replicate (d + 1) (0, 0)) t := ⟨_, rfl⟩
-  have hlen := encF_len d fs tsh ish 0 (List.replicate (d + 1) (0, 0)) t
+    (hin : inShape (d + 1) tsh t = true) (hdims : dimsOK fs tsh ish = true) :
+    decodesTo dflt d fs (effShape fs tsh ish) (encode hu dflt d fs tsh ish t).root (encode hu dflt d fs tsh ish t).cs
+      (encode hu dflt d fs tsh ish t).ps (content (κ := Int) (ν := Int) dflt (d + 1) t) = true := by
+  obtain ⟨r, hr⟩ : ∃ r, r = encF hu dflt d fs tsh ish 0 (List.replicate (d + 1) (0, 0)) t := ⟨_, rfl⟩
+  have hlen := encF_len (hu := hu) (dflt := dflt) d fs tsh ish 0 (List.replicate (d + 1) (0, 0)) t
   rw [← hr] at hlen
-  have hE : encode d fs tsh ish t =
+  have hE : encode hu dflt d fs tsh ish t =
       ⟨if (fs.headD .U).explicit then [(r.occ : Int)] else [], r.cs, r.ps, r.fibs⟩ := by rw [hr]; rfl
   have hz1 : zipApp r.cs (List.replicate (d + 1) []) = r.cs := zipApp_replicate_nil_right _ _ hlen.1
   have hz2 : zipApp r.ps (List.replicate (d + 1) []) = r.ps := zipApp_replicate_nil_right _ _ hlen.2
-  have key := decF_encF d fs tsh ish 0 (List.replicate (d + 1) (0, 0)) t
+  have key := decF_encF (hu := hu) (dflt := dflt) d fs tsh ish 0 (List.replicate (d + 1) (0, 0)) t
     ((((if (fs.headD .U).explicit then [(r.occ : Int)] else []) : List Int).headD 0).toNat)
-    (List.replicate (d + 1) []) (List.replicate (d + 1) []) hfs hwf hin (by simp) (by simp)
+    (List.replicate (d + 1) []) (List.replicate (d + 1) []) hfs hwf hin hdims (by simp) (by simp)
     (by intro h; rw [h, ← hr]; simp [Fmt.explicit])
   rw [← hr, hz1, hz2] at key
   rw [hE]
@@ -47,18 +49,18 @@ theorem decode_encode (d : Nat) (fs : List Fmt) (tsh : List Nat) (ish : Option (
     (t : List (Int × Tree Int Int d))
     (hfs : fs.length = d + 1) (htsh : tsh.length = d + 1) (hwf : wfB (κ := Int) (ν := Int) (d + 1) t = true)
     (hin : inShape (d + 1) tsh t = true) (hish : IshOK ish tsh) :
-    decodesTo d fs (declShape tsh ish) (encode d fs tsh ish t).root (encode d fs tsh ish t).cs
-      (encode d fs tsh ish t).ps (content (κ := Int) (ν := Int) (0 : Int) (d + 1) t) = true := by
-  have h := decode_encode_eff d fs tsh ish t hfs hwf (inEff_of_inShape (d + 1) fs tsh ish t hin hish)
+    decodesTo dflt d fs (declShape tsh ish) (encode hu dflt d fs tsh ish t).root (encode hu dflt d fs tsh ish t).cs
+      (encode hu dflt d fs tsh ish t).ps (content (κ := Int) (ν := Int) dflt (d + 1) t) = true := by
+  have h := decode_encode_eff hu dflt d fs tsh ish t hfs hwf hin (cd_dimsOK_of_IshOK fs tsh ish hish)
   rwa [cd_effShape_decl fs tsh ish (by rw [htsh, hfs]) hish] at h
 
 /-- in particular without an imposed shape, under the tensor's own shape -/
 theorem decode_encode_noshape (d : Nat) (fs : List Fmt) (tsh : List Nat) (t : List (Int × Tree Int Int d))
     (hfs : fs.length = d + 1) (htsh : tsh.length = d + 1) (hwf : wfB (κ := Int) (ν := Int) (d + 1) t = true)
     (hin : inShape (d + 1) tsh t = true) :
-    decodesTo d fs tsh (encode d fs tsh none t).root (encode d fs tsh none t).cs
-      (encode d fs tsh none t).ps (content (κ := Int) (ν := Int) (0 : Int) (d + 1) t) = true :=
-  decode_encode d fs tsh none t hfs htsh hwf hin trivial
+    decodesTo dflt d fs tsh (encode hu dflt d fs tsh none t).root (encode hu dflt d fs tsh none t).cs
+      (encode hu dflt d fs tsh none t).ps (content (κ := Int) (ν := Int) dflt (d + 1) t) = true :=
+  decode_encode hu dflt d fs tsh none t hfs htsh hwf hin trivial
 
 /-- the 2-rank tensor {(0,1) ↦ 5, (1,1) ↦ 5} -/
 def witnessT : List (Int × Tree Int Int 1) :=
@@ -71,24 +73,24 @@ def sampleT : List (Int × Tree Int Int 2) :=
                                  (2, (show Tree Int Int 1 from []))])),
    (2, (show Tree Int Int 2 from [((0 : Int), (show Tree Int Int 1 from [((1 : Int), (-3 : Int))]))]))]
 
-example : decodesTo 2 [.C, .B, .U] (effShape [.C, .B, .U] [3, 3, 3] (some [4, 3, 5]))
-    (encode 2 [.C, .B, .U] [3, 3, 3] (some [4, 3, 5]) sampleT).root
-    (encode 2 [.C, .B, .U] [3, 3, 3] (some [4, 3, 5]) sampleT).cs
-    (encode 2 [.C, .B, .U] [3, 3, 3] (some [4, 3, 5]) sampleT).ps
+example : decodesTo 0 2 [.C, .B, .U] (effShape [.C, .B, .U] [3, 3, 3] (some [4, 3, 5]))
+    (encode (fun _ => false) 0 2 [.C, .B, .U] [3, 3, 3] (some [4, 3, 5]) sampleT).root
+    (encode (fun _ => false) 0 2 [.C, .B, .U] [3, 3, 3] (some [4, 3, 5]) sampleT).cs
+    (encode (fun _ => false) 0 2 [.C, .B, .U] [3, 3, 3] (some [4, 3, 5]) sampleT).ps
     (content (κ := Int) (ν := Int) (0 : Int) 3 sampleT) = true :=
-  decode_encode_eff 2 [.C, .B, .U] [3, 3, 3] (some [4, 3, 5]) sampleT (by decide) (by decide) (by decide)
+  decode_encode_eff (fun _ => false) 0 2 [.C, .B, .U] [3, 3, 3] (some [4, 3, 5]) sampleT (by decide) (by decide) (by decide) (by decide)
 
 example :=
-  decode_encode 2 [.B, .U, .B] [3, 3, 3] (some [4, 3, 5]) sampleT (by decide) (by decide) (by decide) (by decide)
+  decode_encode (fun _ => false) 0 2 [.B, .U, .B] [3, 3, 3] (some [4, 3, 5]) sampleT (by decide) (by decide) (by decide) (by decide)
     (by show shapeGe _ _ = true; decide)
 
 -- the former counterexample (descriptor (B, U), tensor shape [2,2], imposed shape [3,3]) now decodes
-example : decodesTo 1 [.B, .U] [3, 3] (encode 1 [.B, .U] [2, 2] (some [3, 3]) witnessT).root
-    (encode 1 [.B, .U] [2, 2] (some [3, 3]) witnessT).cs (encode 1 [.B, .U] [2, 2] (some [3, 3]) witnessT).ps
+example : decodesTo 0 1 [.B, .U] [3, 3] (encode (fun _ => false) 0 1 [.B, .U] [2, 2] (some [3, 3]) witnessT).root
+    (encode (fun _ => false) 0 1 [.B, .U] [2, 2] (some [3, 3]) witnessT).cs (encode (fun _ => false) 0 1 [.B, .U] [2, 2] (some [3, 3]) witnessT).ps
     (content (κ := Int) (ν := Int) (0 : Int) 2 witnessT) = true := by decide
 
 example :=
-  decode_encode_noshape 2 [.B, .U, .C] [3, 3, 3] sampleT (by decide) (by decide) (by decide) (by decide)
+  decode_encode_noshape (fun _ => false) 0 2 [.B, .U, .C] [3, 3, 3] sampleT (by decide) (by decide) (by decide) (by decide)
 
 example : (content (κ := Int) (ν := Int) (0 : Int) 3 sampleT).length = 2 := by decide
 
@@ -102,16 +104,16 @@ example : (content (κ := Int) (ν := Int) (0 : Int) 3 sampleT).length = 2 := by
 theorem encode_fibs_facts (d : Nat) (fs : List Fmt) (tsh : List Nat) (ish : Option (List Nat))
     (t : List (Int × Tree Int Int d))
     (hfs : fs.length = d + 1) (hwf : wfB (κ := Int) (ν := Int) (d + 1) t = true)
-    (hin : inEff (d + 1) fs tsh ish t = true) :
-    ∀ F ∈ (encode d fs tsh ish t).fibs.flatten, FibFacts F :=
-  encF_fibs_facts d fs tsh ish 0 (List.replicate (d + 1) (0, 0)) t hfs hwf hin
+    (hin : inShape (d + 1) tsh t = true) (hdims : dimsOK fs tsh ish = true) :
+    ∀ F ∈ (encode hu dflt d fs tsh ish t).fibs.flatten, FibFacts F :=
+  encF_fibs_facts d fs tsh ish 0 (List.replicate (d + 1) (0, 0)) t hfs hwf hin hdims
 
 /-- `occupancy_so_far` of every non-leaf C / B fiber of an encoding is the position, in the next
     rank, of the first fiber it created (the rank counters stay consistent through the DFS) -/
 theorem encode_fibs_osf (d : Nat) (fs : List Fmt) (tsh : List Nat) (ish : Option (List Nat))
     (t : List (Int × Tree Int Int d)) (hfs : fs.length = d + 1) :
-    ∀ F ∈ (encode d fs tsh ish t).fibs.flatten, F.fmt ≠ .U → F.next ≠ none → F.osf = F.kid0 :=
-  (cd_encF_cnt d fs tsh ish 0 (List.replicate (d + 1) (0, 0)) t hfs (cd_CntInv_replicate fs (d + 1))).2.2
+    ∀ F ∈ (encode hu dflt d fs tsh ish t).fibs.flatten, F.fmt ≠ .U → F.next ≠ none → F.osf = F.kid0 :=
+  (cd_encF_cnt (hu := hu) (dflt := dflt) d fs tsh ish 0 (List.replicate (d + 1) (0, 0)) t hfs (cd_CntInv_replicate fs (d + 1))).2.2
 
 /-- Scanning an encoded fiber through its own handle interface (`setupSlice(0)`, `nextInSlice`
     until None, `handleToCoord`, `handleToPayload`) yields exactly the fiber's elements in order,
@@ -123,12 +125,27 @@ theorem encode_fibs_osf (d : Nat) (fs : List Fmt) (tsh : List Nat) (ish : Option
 theorem scan_eq_elems (d : Nat) (fs : List Fmt) (tsh : List Nat) (ish : Option (List Nat))
     (t : List (Int × Tree Int Int d))
     (hfs : fs.length = d + 1) (hwf : wfB (κ := Int) (ν := Int) (d + 1) t = true)
-    (hin : inEff (d + 1) fs tsh ish t = true)
-    (F : EFib) (hF : F ∈ (encode d fs tsh ish t).fibs.flatten) :
+    (hin : inShape (d + 1) tsh t = true) (hdims : dimsOK fs tsh ish = true)
+    (F : EFib) (hF : F ∈ (encode hu dflt d fs tsh ish t).fibs.flatten) :
     F.layoutCoords = F.ecoords ∧ F.scan = F.scanSpec ∧ F.scanElems = F.elemsSpec := by
-  have h := encode_fibs_facts d fs tsh ish t hfs hwf hin F hF
-  have ho := encode_fibs_osf d fs tsh ish t hfs F hF
+  have h := encode_fibs_facts hu dflt d fs tsh ish t hfs hwf hin hdims F hF
+  have ho := encode_fibs_osf hu dflt d fs tsh ish t hfs F hF
   refine ⟨layoutCoords_facts F h, scan_facts F h, scanElems_facts F h ?_⟩
+  intro hC hU
+  exact ho (by rw [hC]; decide) (by rw [hU]; exact Option.some_ne_none _)
+
+/-- A slice set up at a coordinate `b` inside the rank's extent (`setupSlice(b)`: `coordToHandle(b)`
+    for U and C, mask position `b` with `countLeft(b)` as payload handle for B) delivers exactly
+    the fiber's elements at coordinates `≥ b`, in order, with the payloads of the full scan. -/
+theorem slice_from_base (d : Nat) (fs : List Fmt) (tsh : List Nat) (ish : Option (List Nat))
+    (t : List (Int × Tree Int Int d))
+    (hfs : fs.length = d + 1) (hwf : wfB (κ := Int) (ν := Int) (d + 1) t = true)
+    (hin : inShape (d + 1) tsh t = true) (hdims : dimsOK fs tsh ish = true)
+    (F : EFib) (hF : F ∈ (encode hu dflt d fs tsh ish t).fibs.flatten) (b : Nat) (hb : b ≤ F.shape) :
+    (F.scanBase b).map (fun e => (e.1, F.resolve e.2)) = F.elemsSpecFrom b := by
+  have h := encode_fibs_facts hu dflt d fs tsh ish t hfs hwf hin hdims F hF
+  have ho := encode_fibs_osf hu dflt d fs tsh ish t hfs F hF
+  refine cd_scanBase_elems F h ?_ b hb
   intro hC hU
   exact ho (by rw [hC]; decide) (by rw [hU]; exact Option.some_ne_none _)
 
@@ -139,11 +156,11 @@ theorem scan_eq_elems (d : Nat) (fs : List Fmt) (tsh : List Nat) (ish : Option (
 theorem walk_eq_content (d : Nat) (fs : List Fmt) (tsh : List Nat) (ish : Option (List Nat))
     (t : List (Int × Tree Int Int d))
     (hfs : fs.length = d + 1) (hwf : wfB (κ := Int) (ν := Int) (d + 1) t = true)
-    (hin : inEff (d + 1) fs tsh ish t = true) :
-    walkM (encode d fs tsh ish t).fibs 0 = content (κ := Int) (ν := Int) (0 : Int) (d + 1) t := by
-  have hl := cd_encF_fibs_len d fs tsh ish 0 (List.replicate (d + 1) (0, 0)) t
-  have h := cd_walk_encF d fs tsh ish 0 (List.replicate (d + 1) (0, 0)) t
-    (List.replicate (d + 1) []) (List.replicate (d + 1) []) hfs hwf hin
+    (hin : inShape (d + 1) tsh t = true) (hdims : dimsOK fs tsh ish = true) :
+    walkM dflt (encode hu dflt d fs tsh ish t).fibs 0 = content (κ := Int) (ν := Int) dflt (d + 1) t := by
+  have hl := cd_encF_fibs_len (hu := hu) (dflt := dflt) d fs tsh ish 0 (List.replicate (d + 1) (0, 0)) t
+  have h := cd_walk_encF (hu := hu) (dflt := dflt) d fs tsh ish 0 (List.replicate (d + 1) (0, 0)) t
+    (List.replicate (d + 1) []) (List.replicate (d + 1) []) hfs hwf hin hdims
     (cd_CntInv_replicate fs (d + 1)) (cd_lenOK_replicate (d + 1) (d + 1)) (by simp) (by simp)
   rw [zipApp_replicate_nil_right (d + 1) _ hl, zipApp_replicate_nil (d + 1) _ hl] at h
   exact h
@@ -154,10 +171,10 @@ theorem walk_eq_content (d : Nat) (fs : List Fmt) (tsh : List Nat) (ish : Option
 theorem coordToHandle_lowerBound (d : Nat) (fs : List Fmt) (tsh : List Nat) (ish : Option (List Nat))
     (t : List (Int × Tree Int Int d))
     (hfs : fs.length = d + 1) (hwf : wfB (κ := Int) (ν := Int) (d + 1) t = true)
-    (hin : inEff (d + 1) fs tsh ish t = true)
-    (F : EFib) (hF : F ∈ (encode d fs tsh ish t).fibs.flatten) (hC : F.fmt = .C) (q : Int) :
+    (hin : inShape (d + 1) tsh t = true) (hdims : dimsOK fs tsh ish = true)
+    (F : EFib) (hF : F ∈ (encode hu dflt d fs tsh ish t).fibs.flatten) (hC : F.fmt = .C) (q : Int) :
     F.coordToHandle q = lowerHandle F.ecoords q :=
-  coordToHandle_C F (encode_fibs_facts d fs tsh ish t hfs hwf hin F hF) hC q
+  coordToHandle_C F (encode_fibs_facts hu dflt d fs tsh ish t hfs hwf hin hdims F hF) hC q
 
 /-- the search itself, for any strictly increasing coordinate list -/
 theorem coordToHandle_search (cs : List Int) (hinc : cs.Pairwise (· < ·)) (q : Int) :
@@ -169,50 +186,70 @@ theorem coordToHandle_search (cs : List Int) (hinc : cs.Pairwise (· < ·)) (q :
 theorem size_eq_words (d : Nat) (fs : List Fmt) (tsh : List Nat) (ish : Option (List Nat))
     (t : List (Int × Tree Int Int d))
     (hfs : fs.length = d + 1) (hwf : wfB (κ := Int) (ν := Int) (d + 1) t = true)
-    (hin : inEff (d + 1) fs tsh ish t = true)
-    (F : EFib) (hF : F ∈ (encode d fs tsh ish t).fibs.flatten) :
+    (hin : inShape (d + 1) tsh t = true) (hdims : dimsOK fs tsh ish = true)
+    (F : EFib) (hF : F ∈ (encode hu dflt d fs tsh ish t).fibs.flatten) :
     F.getSize = some F.words :=
-  getSize_facts F (encode_fibs_facts d fs tsh ish t hfs hwf hin F hF)
+  getSize_facts F (encode_fibs_facts hu dflt d fs tsh ish t hfs hwf hin hdims F hF)
 
 -- non-vacuity of the per-fiber theorems: sampleT under (C, B, U) has 1 + 2 + 3 fibers of all three formats
-example : ((encode 2 [.C, .B, .U] [3, 3, 3] (some [4, 3, 5]) sampleT).fibs.flatten.map (·.fmt)) =
+example : ((encode (fun _ => false) 0 2 [.C, .B, .U] [3, 3, 3] (some [4, 3, 5]) sampleT).fibs.flatten.map (·.fmt)) =
     [.C, .B, .B, .U, .U] := by decide
 
-example := scan_eq_elems 2 [.C, .B, .U] [3, 3, 3] (some [4, 3, 5]) sampleT (by decide) (by decide) (by decide)
-  (((encode 2 [.C, .B, .U] [3, 3, 3] (some [4, 3, 5]) sampleT).fibs.flatten).headD default) (by decide)
+example := scan_eq_elems (fun _ => false) 0 2 [.C, .B, .U] [3, 3, 3] (some [4, 3, 5]) sampleT (by decide) (by decide) (by decide) (by decide)
+  (((encode (fun _ => false) 0 2 [.C, .B, .U] [3, 3, 3] (some [4, 3, 5]) sampleT).fibs.flatten).headD default) (by decide)
 
-example : (((encode 2 [.C, .B, .U] [3, 3, 3] (some [4, 3, 5]) sampleT).fibs.flatten).headD default).scanElems
+example : (((encode (fun _ => false) 0 2 [.C, .B, .U] [3, 3, 3] (some [4, 3, 5]) sampleT).fibs.flatten).headD default).scanElems
     = [(some 0, some 0), (some 2, some 1)] := by decide
 
-example := coordToHandle_lowerBound 2 [.C, .B, .U] [3, 3, 3] none sampleT (by decide) (by decide) (by decide)
-  (((encode 2 [.C, .B, .U] [3, 3, 3] none sampleT).fibs.flatten).headD default) (by decide) (by decide) 1
+example := coordToHandle_lowerBound (fun _ => false) 0 2 [.C, .B, .U] [3, 3, 3] none sampleT (by decide) (by decide) (by decide) (by decide)
+  (((encode (fun _ => false) 0 2 [.C, .B, .U] [3, 3, 3] none sampleT).fibs.flatten).headD default) (by decide) (by decide) 1
 
 example := coordToHandle_search [1, 4, 6, 9, 12] (by decide) 7
 example : lowerHandle [1, 4, 6, 9, 12] 7 = some 3 := by decide
 
-example := size_eq_words 2 [.C, .B, .U] [3, 3, 3] none sampleT (by decide) (by decide) (by decide)
-  (((encode 2 [.C, .B, .U] [3, 3, 3] none sampleT).fibs.flatten).headD default) (by decide)
+example := size_eq_words (fun _ => false) 0 2 [.C, .B, .U] [3, 3, 3] none sampleT (by decide) (by decide) (by decide) (by decide)
+  (((encode (fun _ => false) 0 2 [.C, .B, .U] [3, 3, 3] none sampleT).fibs.flatten).headD default) (by decide)
 
 -- the former witnesses: C above U with two elements now designates fiber 0 and fiber 1 …
-example : (((encode 1 [.C, .U] [2, 2] none witnessT).fibs.flatten).headD default).scanElems
+example : (((encode (fun _ => false) 0 1 [.C, .U] [2, 2] none witnessT).fibs.flatten).headD default).scanElems
     = [(some 0, some 0), (some 1, some 1)] := by decide
 
-example := scan_eq_elems 1 [.C, .U] [2, 2] none witnessT (by decide) (by decide) (by decide)
-  (((encode 1 [.C, .U] [2, 2] none witnessT).fibs.flatten).headD default) (by decide)
+example := scan_eq_elems (fun _ => false) 0 1 [.C, .U] [2, 2] none witnessT (by decide) (by decide) (by decide) (by decide)
+  (((encode (fun _ => false) 0 1 [.C, .U] [2, 2] none witnessT).fibs.flatten).headD default) (by decide)
 
 -- … a second C fiber above U starts at its own occupancy_so_far (descriptor (U, C, U))
-example : (((encode 2 [.U, .C, .U] [3, 3, 3] none sampleT).fibs.flatten).map (fun F => (F.fmt, F.osf, F.kid0))) =
+example : (((encode (fun _ => false) 0 2 [.U, .C, .U] [3, 3, 3] none sampleT).fibs.flatten).map (fun F => (F.fmt, F.osf, F.kid0))) =
     [(.U, 0, 0), (.C, 0, 0), (.C, 1, 1), (.C, 1, 1), (.U, 0, 0), (.U, 0, 0)] := by decide
 
 -- … and the empty tensor reports 0 words (U of shape 0; C above C)
-example : ((encode 0 [.U] [0] none ([] : List (Int × Tree Int Int 0))).fibs.flatten.map (·.getSize)) = [some 0] := by decide
-example : ((encode 1 [.C, .C] [0, 0] none ([] : List (Int × Tree Int Int 1))).fibs.flatten.map (·.getSize)) = [some 0] := by decide
+example : ((encode (fun _ => false) 0 0 [.U] [0] none ([] : List (Int × Tree Int Int 0))).fibs.flatten.map (·.getSize)) = [some 0] := by decide
+example : ((encode (fun _ => false) 0 1 [.C, .C] [0, 0] none ([] : List (Int × Tree Int Int 1))).fibs.flatten.map (·.getSize)) = [some 0] := by decide
 
-example : (((encode 2 [.C, .B, .U] [3, 3, 3] none sampleT).fibs.flatten).map (·.words)) = [6, 1, 1, 3, 3] := by decide
+example : (((encode (fun _ => false) 0 2 [.C, .B, .U] [3, 3, 3] none sampleT).fibs.flatten).map (·.words)) = [6, 1, 1, 3, 3] := by decide
 
-example := walk_eq_content 2 [.B, .C, .B] [3, 3, 3] (some [4, 3, 5]) sampleT (by decide) (by decide) (by decide)
+example := walk_eq_content (fun _ => false) 0 2 [.B, .C, .B] [3, 3, 3] (some [4, 3, 5]) sampleT (by decide) (by decide) (by decide) (by decide)
 
-example : walkM (encode 2 [.B, .B, .U] [3, 3, 3] none sampleT).fibs 0 = [([0, 1, 0], 7), ([2, 0, 1], -3)] := by decide
+example : walkM 0 (encode (fun _ => false) 0 2 [.B, .B, .U] [3, 3, 3] none sampleT).fibs 0 = [([0, 1, 0], 7), ([2, 0, 1], -3)] := by decide
+
+-- the tensor's own ranks in format "U" (every position is presented to C and B) and a non-zero default
+example := decode_encode (fun k => k == 1) 7 2 [.C, .B, .C] [3, 3, 3] (some [4, 3, 5]) sampleT (by decide) (by decide)
+  (by decide) (by decide) (by show shapeGe _ _ = true; decide)
+
+example : (encode (fun k => k == 1) 0 2 [.C, .C, .C] [3, 3, 3] none sampleT).cs = [[0, 2], [0, 1, 2, 0, 1, 2], [0, 1]] := by
+  decide
+
+example : content (κ := Int) (ν := Int) (7 : Int) 3 sampleT = [([0, 1, 0], 7), ([0, 1, 2], 0), ([2, 0, 1], -3)].filter (fun e => e.2 != 7) := by
+  decide
+
+example := walk_eq_content (fun _ => true) 7 2 [.B, .C, .U] [3, 3, 3] none sampleT (by decide) (by decide) (by decide) (by decide)
+
+example := slice_from_base (fun _ => false) 0 2 [.C, .B, .U] [3, 3, 3] (some [4, 3, 5]) sampleT (by decide) (by decide)
+  (by decide) (by decide)
+  (((encode (fun _ => false) 0 2 [.C, .B, .U] [3, 3, 3] (some [4, 3, 5]) sampleT).fibs.flatten).headD default) (by decide) 1
+  (by decide)
+
+example : ((((encode (fun _ => false) 0 2 [.B, .B, .U] [3, 3, 3] none sampleT).fibs.flatten).headD default).scanBase 1)
+    = [(some 2, some 1)] := by decide
 
 end Codec
 end Ft
